@@ -230,7 +230,7 @@ def communityUpdate (o : Obs) : String :=
 
 /-! ### record-keyed handlers -/
 
-def users : List Nat := List.range 12
+def users : List Nat := List.range 13
 
 def subsetOf (a b : List Nat) : Bool := a.all (fun x => b.contains x)
 
